@@ -16,6 +16,8 @@ package rueidisaside
 //@   assert [C39 a-dead-holders-lock-is-released-before-retrying] at Exec#4: arg0 == delkey && returned(IsRedisNil) && len(arg3) == 1 && arg3[0] == key && len(arg4) == 1 && arg4[0] == val && strings.HasPrefix(val, PlaceholderPrefix)
 //@   ensures [C39 every-load-is-followed-by-a-store-or-a-release-of-the-lock] calls(fn) <= calls(Exec, 2) + calls(Exec, 3)
 //@   loop 0: invariant [C39 every-load-is-followed-by-a-store-or-a-release-of-the-lock] calls(fn) <= calls(Exec, 2) + calls(Exec, 3)
+//@   assert [C39 the-waiter-is-registered-for-the-key-before-the-key-is-read] at DoCache#1: calls(register, 1) == calls(DoCache, 1) + 1
+//@   loop 0: invariant [C39 the-waiter-is-registered-for-the-key-before-the-key-is-read] calls(register, 1) == calls(DoCache, 1)
 //@   assert [C39 the-lock-is-taken-with-this-clients-id] at Exec#1: arg0 == acquireLock && len(arg3) == 1 && arg3[0] == key && len(arg4) == 2 && arg4[0] == id
 
 //@ func Client.register
@@ -25,4 +27,4 @@ package rueidisaside
 
 //@ func Client.keepalive
 //@   modifies *
-//@   ensures [C39 a-fresh-client-id-is-a-placeholder where-defined] (err == nil && old(c.id) == "" && calls(Do) == 1) ==> (strings.HasPrefix(id, PlaceholderPrefix) || id == c.id)
+//@   ensures [C39 the-id-handed-out-is-the-id-this-client-keeps-alive] err == nil ==> id == c.id
